@@ -173,6 +173,42 @@ func runDomains(t *testing.T, rc *RunCtx) {
 				before = after
 			}
 		}
+		// One time in three, what was just signed is presented again through the generic endpoints, from a drawn source
+		// address: the same root under the same domain, for the same account (the object root of a signed attestation or
+		// block under its slashable domain; a signed exit from another address).  A signature made before is no licence.
+		signedAny := false
+		for j := range o.Entries {
+			signedAny = signedAny || r.OK(j)
+		}
+		if signedAny && len(rc.Viol) == 0 && ch.Pick(3, 0) == 2 {
+			eo := &Op{Kind: []string{"gen", "multi"}[ch.Pick(2, 0)], Client: "client1", IP: ""}
+			if ch.Pick(3, 0) > 0 {
+				eo.IP = ipPool[ch.Pick(len(ipPool), 0)]
+			}
+			for j := range o.Entries {
+				if !r.OK(j) || len(o.Entries[j].Domain) != 32 {
+					continue
+				}
+				ee := o.Entries[j]
+				ee.Data = append([]byte{}, o.Entries[j].ObjectRoot(kind)...)
+				eo.Entries = append(eo.Entries, ee)
+				if eo.Kind == "gen" {
+					break
+				}
+			}
+			if len(eo.Entries) > 0 {
+				var er *OpResult
+				s.Direct(func() { er = eo.Exec(inst) })
+				rc.Stats.Inc("probe_signed_requests_presented_again_through_generic_endpoints", 1)
+				rc.Logf("again: %s ip=%q -> %v", eo, eo.IP, er.States)
+				Monitor(rc, ledger, pop, eo, er, i, false)
+				for j := range eo.Entries {
+					if er.OK(j) && domType(eo.Entries[j].Domain) == DomExit && !listed(eo.IP) {
+						rc.Violate("C05", "exit-signed-for-unlisted-source", fmt.Sprintf("%s position %d: voluntary-exit domain signed for source address %q, administrator list %q (the same request had been signed for %q just before)", eo, j, eo.IP, admin, ip), i)
+					}
+				}
+			}
+		}
 	}
 	// A third of the runs end with two or three generic multisign requests in flight at once (interleaved by the
 	// scheduler at every lock, storage, rules and Sign yield point), one of them carrying slashable or exit
